@@ -3,7 +3,8 @@
    Name.to_text / dns.name.from_text / Tokenizer.get_name on the real code; the outputs
    are recomputed with ToText / ParseText (the fold of the parser automaton) / TokName.
 
-   Hard: the text the implementation wrote parses - with the SPECIFICATION's parser - back
+   Hard: the text is one master-file token (printable, specials only escaped: MasterFileSafe);
+   the text the implementation wrote parses - with the SPECIFICATION's parser - back
    to the name (byte-identical labels); the implementation's parser gives, for every text,
    the verdict and the name the specification's parser gives; a refusal is a library
    error.  Free: which error class.  Strict (drift only): the exact escaping chosen. *)
@@ -24,6 +25,7 @@ LibErrOrOk(r) == r[1] = "err" => r[3]
 (* to_text of a name, and from_text / get_name of that text under each origin *)
 TWrite ==
     /\ e.op = "write"
+    /\ C("TextIsMasterFileSafe", MasterFileSafe(e.text) /\ MasterFileSafe(e.omit))
     /\ C("TextParsesBack", \A k \in 1..Len(e.origins) : ParseText(e.text, e.origins[k]) = Reparsed(e.n, e.origins[k]))
     /\ C("OmitFinalDot", IsAbs(e.n) => ParseText(e.omit, Some(Root)) = Ok(e.n))
     /\ C("TextRoundTrip", \A k \in 1..Len(e.origins) : Agrees(e.back[k], Reparsed(e.n, e.origins[k])))
